@@ -8,14 +8,16 @@ register number denotes.  Mirrors (core Lean only, linked into `bsmodel`):
 * `src/debugger/debugee/dwarf/unit/die_ref.rs`  `FatDieRef<Variable>::ranges` (walk up the parent index to the nearest
                                                  `DW_TAG_lexical_block`/`DW_TAG_subprogram`), `valid_at` (`unwrap_or(true)`),
                                                  `local_variables` (every valid `DW_TAG_variable` of the subtree, BFS order),
-                                                 `local_variable` (first valid one with the name, BFS order), `parameters`
+                                                 `local_variable` (LAST valid one with the name in BFS order), `parameters`
                                                  (direct children that are `DW_TAG_formal_parameter`);
 * `src/debugger/address.rs`                      `in_range` (`begin <= pc < end`), `in_ranges`;
 * `src/debugger/debugee/dwarf/location.rs`       `try_as_expression` (exprloc, else FIRST list entry with
-                                                 `begin <= pc && end >= pc` — inclusive end, as written);
+                                                 `begin <= pc && pc < end` — half open);
 * `src/debugger/register.rs`                     `dwarf_register`, `From<gimli::Register>`, `DwarfRegisterMap::from`
                                                  (a sequence of `SmallVec::insert`, i.e. shifting inserts) — the tables
                                                  themselves are re-extracted from the source on every run (`Gen/Dwregs.lean`);
+* `src/debugger/mod.rs`                          `ExplorationContext::lookup_pc` (the pc the scope filter and the location-list
+                                                 selection use: the pc in frame 0, return address − 1 in outer frames);
 * `src/debugger/debugee/dwarf/unwind.rs`         `UnwindContext::next` (`rsp` of the caller := CFA of the callee) as far as the
                                                  stack pointer of the selected frame is concerned.
 -/
@@ -102,8 +104,17 @@ def localVariables (f : Die) (pc : Nat) : List Entry := (bfs f).filter (isValidV
 def isCandidate (pc : Nat) (needle : Nat) (e : Entry) : Bool :=
   e.2.info.tag == Tag.variable && (e.2.info.name == some needle && validAt e.1 pc)
 
-/-- `FatDieRef<Function>::local_variable(pc, needle)`: first match in BFS order -/
-def localVariable (f : Die) (pc : Nat) (needle : Nat) : Option Entry := (bfs f).find? (isCandidate pc needle)
+/-- live bindings of the name at this pc, in traversal order -/
+def candidates (f : Die) (pc : Nat) (needle : Nat) : List Entry := (bfs f).filter (isCandidate pc needle)
+
+/-- `FatDieRef<Function>::local_variable(pc, needle)`: the whole subtree is walked, every match overwrites the
+    result: the LAST match in BFS order -/
+def localVariable (f : Die) (pc : Nat) (needle : Nat) : Option Entry := (candidates f pc needle).getLast?
+
+/-- `ExplorationContext::lookup_pc`: the address at which lexical blocks and location lists are looked up for the
+    selected frame `k` whose location is `pc`: the pc itself in frame 0; in an outer frame the location is a return
+    address and `pc - 1` (saturating), an address inside the call instruction, is used -/
+def lookupPc (k pc : Nat) : Nat := if k = 0 then pc else pc - 1
 
 /-- `FatDieRef<Function>::parameters` (direct children only, no pc filter) -/
 def parameters (f : Die) : List Info := (f.children.map Die.info).filter (·.tag == Tag.param)
@@ -144,8 +155,8 @@ inductive LocAttr
   | list (es : List LocEntry)
   deriving Repr, Inhabited
 
-/-- the test of `try_as_expression` as written: inclusive at BOTH ends -/
-def LocEntry.hit (pc : Nat) (e : LocEntry) : Bool := decide (e.lo ≤ pc) && decide (e.hi ≥ pc)
+/-- the test of `try_as_expression` as written: `begin <= pc && pc < end` -/
+def LocEntry.hit (pc : Nat) (e : LocEntry) : Bool := decide (e.lo ≤ pc) && decide (pc < e.hi)
 
 /-- what DWARF says (section 2.6.2): the entry covers `[lo, hi)` -/
 def LocEntry.covers (pc : Nat) (e : LocEntry) : Bool := decide (e.lo ≤ pc) && decide (pc < e.hi)
